@@ -227,6 +227,7 @@ STL = {
     'std::__detail::_Node_iterator_base<unsigned int, false>': ('bg_uset_it', 'uset_it'),
     'std::pair<std::vector<unsigned long>, std::vector<unsigned int>>': ('bg_preds', 'preds'),
     'std::deque<unsigned int>': ('bg_queue_u', 'queue_u'),
+    'std::pair<std::vector<unsigned long>, std::vector<std::list<unsigned int>>>': ('bg_mpreds', 'mpreds'),
     'std::_Bit_reference': ('bg_bitref', 'bitref'),
     'std::vector<bool>::reference': ('bg_bitref', 'bitref'),
     'std::tuple<unsigned int, unsigned int, VLabel>': ('bg_ledge_VLabel', 'ledge_VLabel'),
